@@ -46,6 +46,7 @@ Inductive operand := Num (text : list chr) | Pct (text : list chr) (w : blanks) 
   | Paren (po pc : list chr) (w1 : blanks) (e : expr) (w2 : blanks)
   | Call (name po pc : list chr) (a : args)                         (* f( ... ) *)
   | Fact (first : list chr) (ms : list (blanks * bool * list chr))   (* a word, or a phrase: further words and numbers *)
+  | Brace (bo bc : list chr) (bw : list (blanks * list chr)) (wlast : blanks)   (* { word word } : an escaped phrase *)
 with expr := Chain (x : operand) (r : tail)
 with tail := TNil | TCons (wb : blanks) (a : arith) (atxt : list chr) (wa : blanks) (x : operand) (r : tail)
   | TTo (wb : blanks) (ttxt : list chr) (wa : blanks) (u : uast) (r : tail)   (* `to` and a unit expression *)
@@ -63,6 +64,11 @@ Definition more_toks (ms : list (blanks * bool * list chr)) : list tok :=
 Definition more_trees (ms : list (blanks * bool * list chr)) : list Grammar.tree :=
   flat_map (fun m : blanks * bool * list chr => wsT (fst (fst m)) ++ [Grammar.Node WORD [Tok (if snd (fst m) then NUMBER else WORD) (snd m)]]) ms.
 
+Definition brace_toks (bw : list (blanks * list chr)) : list tok :=
+  flat_map (fun m : blanks * list chr => wst (fst m) ++ [(WORD, snd m)]) bw.
+Definition brace_trees (bw : list (blanks * list chr)) : list Grammar.tree :=
+  flat_map (fun m : blanks * list chr => wsT (fst m) ++ [Grammar.Node WORD [Tok WORD (snd m)]]) bw.
+
 Fixpoint toks_operand (x : operand) : list tok :=
   match x with
   | Num t => [(NUMBER, t)]
@@ -71,6 +77,7 @@ Fixpoint toks_operand (x : operand) : list tok :=
   | Paren po pc w1 e w2 => (OPEN_PAREN, po) :: wst w1 ++ toks_expr e ++ wst w2 ++ [(CLOSE_PAREN, pc)]
   | Call name po pc a => (WORD, name) :: (OPEN_PAREN, po) :: toks_args a ++ [(CLOSE_PAREN, pc)]
   | Fact first ms => (WORD, first) :: more_toks ms
+  | Brace bo bc bw wl => (OPEN_BRACE, bo) :: brace_toks bw ++ wst wl ++ [(CLOSE_BRACE, bc)]
   end
 with toks_expr (e : expr) : list tok := match e with Chain x r => toks_operand x ++ toks_tail r end
 with toks_tail (r : tail) : list tok :=
@@ -113,6 +120,8 @@ Fixpoint trees_operand (x : operand) : list Grammar.tree :=
       | [] => [Grammar.Node WORD [Tok WORD first]]
       | _ => [Grammar.Node SENTENCE (Grammar.Node WORD [Tok WORD first] :: more_trees ms)]
       end
+  | Brace bo bc bw wl =>
+      Tok OPEN_BRACE bo :: (if 1 <? length bw then [Grammar.Node SENTENCE (brace_trees bw)] else brace_trees bw) ++ wsT wl ++ [Tok CLOSE_BRACE bc]
   end
 with trees_expr (w : blanks) (e : expr) {struct e} : list Grammar.tree :=
   match e with
@@ -134,7 +143,7 @@ with trees_more (m : more) {struct m} : list Grammar.tree :=
   end.
 
 Fixpoint need_operand (x : operand) : nat :=
-  match x with Num _ | Pct _ _ _ | NumU _ _ _ | Fact _ _ => 1 | Paren _ _ _ e _ => S (need_expr e) | Call _ _ _ a => S (S (need_args a)) end
+  match x with Num _ | Pct _ _ _ | NumU _ _ _ | Fact _ _ | Brace _ _ _ _ => 1 | Paren _ _ _ e _ => S (need_expr e) | Call _ _ _ a => S (S (need_args a)) end
 with need_expr (e : expr) : nat := match e with Chain x r => S (Nat.max (need_operand x) (need_tail r)) end
 with need_tail (r : tail) : nat :=
   match r with TNil => 0 | TCons _ _ _ _ x r' => Nat.max (need_operand x) (need_tail r') | TTo _ _ _ _ r' => need_tail r' end
@@ -167,8 +176,8 @@ Lemma count_ws_only w : count_ws (wst w) = length w.
 Proof. induction w as [|t w IH]; [reflexivity|]. change (count_ws (wst (t :: w))) with (S (count_ws (wst w))). now rewrite IH. Qed.
 Lemma kind_at_end w : kind_at (wst w) (length w) = EOF.
 Proof. unfold kind_at. rewrite <- (wst_length w). now rewrite (proj2 (nth_error_None _ _) (le_n _)). Qed.
-Lemma kind_at_operand x l : kind_at (toks_operand x ++ l) 0 = NUMBER \/ kind_at (toks_operand x ++ l) 0 = OPEN_PAREN \/ kind_at (toks_operand x ++ l) 0 = WORD.
-Proof. destruct x; [left|left|left|right; left|right; right|right; right]; reflexivity. Qed.
+Lemma kind_at_operand x l : kind_at (toks_operand x ++ l) 0 = NUMBER \/ kind_at (toks_operand x ++ l) 0 = OPEN_PAREN \/ kind_at (toks_operand x ++ l) 0 = WORD \/ kind_at (toks_operand x ++ l) 0 = OPEN_BRACE.
+Proof. destruct x; cbn; auto. Qed.
 
 Definition next_kind (rest : list tok) : kind := kind_at rest (count_ws rest).
 Definition follows (rest : list tok) : Prop :=
@@ -450,6 +459,59 @@ Proof.
     rewrite close_at_mk. rewrite app_length, <- app_assoc. reflexivity.
 Qed.
 
+Lemma eat_brace w bc rest G : eat (length w) [CLOSE_BRACE] (mkst (wst w ++ (CLOSE_BRACE, bc) :: rest) G)
+  = (true, mkst rest (G ++ wsT w ++ [Tok CLOSE_BRACE bc])).
+Proof.
+  unfold eat. cbn [kinds_match]. rewrite nth_kind_mk, kind_at_wst. cbn [fst kind_beq andb length].
+  replace (length w + 1) with (S (length w)) by lia. rewrite bumps_mk, skipn_S_wst, firstn_S_wst.
+  rewrite map_app. reflexivity.
+Qed.
+
+Lemma words_loop_brace : forall bw fuel n rest G, length (brace_toks bw ++ rest) < fuel -> next_kind rest <> WORD ->
+  words_loop fuel false (count_ws (brace_toks bw ++ rest)) n (mkst (brace_toks bw ++ rest) G)
+  = (count_ws rest, n + length bw, mkst rest (G ++ brace_trees bw)).
+Proof.
+  induction bw as [|[w t] bw IH]; intros fuel n rest G Hf H3.
+  - cbn [brace_toks brace_trees flat_map app length]. rewrite app_nil_r, Nat.add_0_r. destruct fuel as [|fuel]; [cbn in Hf; lia|].
+    cbn [words_loop]. rewrite nth_kind_mk. unfold next_kind in *.
+    destruct (kind_at rest (count_ws rest)); try congruence; reflexivity.
+  - change (brace_toks ((w, t) :: bw)) with ((wst w ++ [(WORD, t)]) ++ brace_toks bw).
+    change (brace_trees ((w, t) :: bw)) with ((wsT w ++ [Grammar.Node WORD [Tok WORD t]]) ++ brace_trees bw).
+    rewrite <- !app_assoc. cbn [app].
+    destruct fuel as [|fuel]; [cbn in Hf; lia|]. cbn [words_loop].
+    rewrite count_ws_wst.
+    repeat match goal with |- context[length w + count_ws ?B] => replace (count_ws B) with 0 by reflexivity end.
+    rewrite Nat.add_0_r. rewrite nth_kind_mk, kind_at_wst. cbn [fst kind_beq orb andb].
+    rewrite bumps_mk, firstn_wst, skipn_wst. fold (wsT w). rewrite bump_node_mk. cbn [fst snd].
+    change (count_skip (mkst ?B ?G0)) with (count_ws B).
+    rewrite (IH fuel (S n) rest); [|change (brace_toks ((w, t) :: bw)) with ((wst w ++ [(WORD, t)]) ++ brace_toks bw) in Hf; rewrite !app_length in Hf; cbn [length] in Hf; rewrite app_length; lia|exact H3].
+    f_equal; [f_equal; cbn [length]; lia|]. unfold mkst. f_equal. now rewrite <- !app_assoc.
+Qed.
+
+Lemma brace_operand fuel bo bc bw wl w rest : 1 <= fuel ->
+  OperandAt (value fuel) false (length w) (wst w ++ ((OPEN_BRACE, bo) :: brace_toks bw ++ wst wl ++ [(CLOSE_BRACE, bc)]) ++ rest) (wsT w)
+    (Tok OPEN_BRACE bo :: (if 1 <? length bw then [Grammar.Node SENTENCE (brace_trees bw)] else brace_trees bw) ++ wsT wl ++ [Tok CLOSE_BRACE bc]) rest.
+Proof.
+  intros Hf F. destruct fuel as [|fuel]; [lia|]. unfold operandf. cbn [value]. unfold value_body.
+  rewrite <- app_comm_cons. rewrite nth_kind_mk, kind_at_wst. cbn [fst].
+  rewrite bumps_mk, firstn_wst, skipn_wst. fold (wsT w).
+  change (bump (mkst ((OPEN_BRACE, bo) :: ?B) ?G)) with (mkst B (G ++ [Tok OPEN_BRACE bo])).
+  change (buf (mkst ?B ?G)) with B. change (count_skip (mkst ?B ?G)) with (count_ws B).
+  set (rest' := wst wl ++ (CLOSE_BRACE, bc) :: rest).
+  assert (Hn : next_kind rest' = CLOSE_BRACE) by (unfold rest'; now rewrite next_kind_wst).
+  match goal with |- context[words_loop ?f false ?sk 0 (mkst ?B ?G)] =>
+    replace (words_loop f false sk 0 (mkst B G)) with (count_ws rest', 0 + length bw, mkst rest' (G ++ brace_trees bw))
+      by (symmetry; replace B with (brace_toks bw ++ rest') by (unfold rest'; now rewrite <- !app_assoc);
+          apply words_loop_brace; [apply Nat.lt_succ_diag_r|rewrite Hn; discriminate]) end.
+  cbn [Nat.add]. change (checkpoint (mkst ?B ?G)) with (length G).
+  assert (Hc : count_ws rest' = length wl) by (unfold rest'; rewrite count_ws_wst; cbn; lia).
+  rewrite Hc.
+  destruct (1 <? length bw) eqn:E.
+  - replace (((F ++ wsT w) ++ [Tok OPEN_BRACE bo]) ++ brace_trees bw) with (((F ++ wsT w) ++ [Tok OPEN_BRACE bo]) ++ brace_trees bw) by reflexivity.
+    rewrite close_at_mk. unfold rest'. rewrite eat_brace. rewrite app_length. f_equal. f_equal. unfold mkst. f_equal. rewrite <- !app_assoc. reflexivity.
+  - unfold rest'. rewrite eat_brace. rewrite app_length. f_equal. f_equal. unfold mkst. f_equal. rewrite <- !app_assoc. reflexivity.
+Qed.
+
 Definition operand_spec (fuel : nat) (x : operand) : Prop := forall w rest, follows rest -> (ends_in_unit x = true -> unit_follows rest) ->
   OperandAt (value fuel) false (length w) (wst w ++ toks_operand x ++ rest) (wsT w) (trees_operand x) rest.
 Definition expr_spec (fuel : nat) (e : expr) : Prop := forall w rest F, follows rest -> unit_follows rest -> op_of (next_kind rest) = None ->
@@ -713,6 +775,7 @@ Proof.
   - intros name po pc a IHa fuel Hf Hw. cbn [need_operand] in Hf. destruct fuel as [|[|fuel]]; [lia|lia|].
     apply call_operand. apply IHa; [lia|exact Hw].
   - intros first ms fuel Hf _ w rest Hfo _. cbn [toks_operand trees_operand]. apply fact_operand; [exact Hf|exact Hfo].
+  - intros bo bc bw wl fuel Hf _ w rest _ _. cbn [toks_operand trees_operand]. apply brace_operand. exact Hf.
   - intros x IHx r IHr fuel Hf [Hwx [Htx Hwr]]. cbn [need_expr] in Hf. destruct fuel as [|fuel]; [lia|].
     apply chain_expr; [apply IHx; [lia|exact Hwx]|exact Htx|exact Hwr|apply IHr; [lia|exact Hwr]].
   - intros fuel _ _. exact I.
@@ -738,6 +801,7 @@ Proof.
   - intros po pc w1 e IHe w2. cbn [need_operand toks_operand length]. rewrite !app_length. cbn [length]. lia.
   - intros name po pc a IHa. cbn [need_operand toks_operand length]. rewrite !app_length. cbn [length]. lia.
   - intros first ms. cbn. lia.
+  - intros bo bc bw wl. cbn. lia.
   - intros x IHx r IHr. cbn [need_expr toks_expr]. rewrite app_length. lia.
   - cbn. lia.
   - intros wb a txt wa x IHx r IHr. cbn [need_tail toks_tail]. rewrite !app_length. cbn [length]. rewrite !app_length. lia.
@@ -772,10 +836,9 @@ Proof.
   assert (Hc : count_ws toks = length w0).
   { unfold toks. rewrite count_ws_wst. destruct e as [x r]. cbn [toks_expr]. rewrite <- app_assoc, count_ws_operand. lia. }
   rewrite Hc. rewrite root_step. rewrite nth_kind_mk.
-  assert (Hk : kind_at toks (length w0) = NUMBER \/ kind_at toks (length w0) = OPEN_PAREN \/ kind_at toks (length w0) = WORD).
+  assert (Hk : kind_at toks (length w0) = NUMBER \/ kind_at toks (length w0) = OPEN_PAREN \/ kind_at toks (length w0) = WORD \/ kind_at toks (length w0) = OPEN_BRACE).
   { unfold toks. destruct e as [x r]. cbn [toks_expr]. rewrite <- app_assoc.
-    destruct x as [t|t wp pt|t wu u|po pc wa e' wb|name po pc a|first ms]; cbn [toks_operand]; rewrite <- ?app_comm_cons; rewrite kind_at_wst;
-      [left|left|left|right; left|right; right|right; right]; reflexivity. }
+    destruct x as [t|t wp pt|t wu u|po pc wa e' wb|name po pc a|first ms|bo bc bw wl]; cbn [toks_operand]; rewrite <- ?app_comm_cons; rewrite kind_at_wst; cbn; auto. }
   assert (Hend : next_kind (wst w1) = EOF) by (unfold next_kind; rewrite count_ws_only; apply kind_at_end).
   assert (Hop : operation (2 * length (buf (mkst toks [])) + 2) (length w0) (mkst toks [])
                 = Some (Some (count_ws (wst w1)), mkst (wst w1) ([] ++ trees_expr w0 e))).
@@ -790,7 +853,7 @@ Proof.
                   Some (false, mkst [] (trees_expr w0 e ++ wsT w1))).
   { rewrite root_step. rewrite nth_kind_mk, kind_at_end. rewrite bumps_mk. rewrite <- (wst_length w1), firstn_all, skipn_all. reflexivity. }
   change (buf (mkst toks [])) with toks in Hop.
-  destruct Hk as [Hk|[Hk|Hk]]; rewrite Hk; change (buf (mkst toks [])) with toks; rewrite Hop, Hlast; reflexivity.
+  destruct Hk as [Hk|[Hk|[Hk|Hk]]]; rewrite Hk; change (buf (mkst toks [])) with toks; rewrite Hop, Hlast; reflexivity.
 Qed.
 
 (* ... and the tree is the documented grammar's: inside every group, [canon] over the three priority levels *)
